@@ -14,6 +14,10 @@ def log_call(n) -> bool:
         d = A.dotted(n.func)
         if d and d.split(".")[0] == "log":
             return True
+        if isinstance(n.func, ast.Attribute) and n.func.attr in ("push_frame", "pop_frame", "get_calling_frame"):
+            return True  # CallStack primitives are list operations on a stack this thread owns
+        if d == "CallStack.get":
+            return True
         if isinstance(n.func, ast.Attribute) and n.func.attr == "format" and isinstance(n.func.value, ast.Constant):
             return True
     if isinstance(n, ast.Attribute):
